@@ -75,13 +75,16 @@ SIDE_FUNCS = {"push", "push_distinct", "counter", "sum", "subtotal", "stop", "sk
 
 
 class Model:
-    def __init__(self, prog, rows, emulate=()):
+    def __init__(self, prog, rows, emulate=(), policy=None):
+        self.policy = None if policy is None else set(policy)  # None: an error is outside the decided subset
+        self.line_errors = 0
         self.prog = prog
         self.comps = prog["comps"]
         self.rows = rows
         self.AND = prog.get("mode", "AND") == "AND"
         self.emulate = set(emulate)
         self.reached = set()  # known-defect mechanisms whose predicate was reached
+        self.reached_at = {}  # mechanism -> physical line where it was first reached
         self.vars = {}
         self.hidden = {}  # internal bookkeeping (every(), once) kept out of the visible variables
         self.headers = []
@@ -684,6 +687,7 @@ class Model:
         """returns dict(considered, matched) and updates state"""
         self.lineno = i
         self.line = line
+        self.line_errors = 0
         self.stop_fired = False
         self.skip_fired = False
         file_last = len(self.rows) - 1
@@ -709,7 +713,15 @@ class Model:
             matched = False
         else:
             self._build_matcher()
+            self.line_errors = 0
             matched = self.eval_components()
+            if self.line_errors:
+                if "raise" in self.policy:
+                    raise Unspec("raise policy")
+                if "stop" in self.policy:
+                    self.stopped = True
+                if "fail" in self.policy:
+                    self.valid = False
         if sl is not None and i == sl:
             self.stopped = True
         if self.scanset[0] != "set" and i == file_last:
@@ -745,12 +757,21 @@ class Model:
                 if c[0] == "assign":
                     self.val(c[4])  # may raise Unspec / ExpErr: the value is computed whether or not the line matches
                 continue
-            votes[idx] = self.comp_vote(c)
+            try:
+                votes[idx] = self.comp_vote(c)
+            except ExpErr:
+                # an error in a component: the component (and so the line, in AND mode) does not match;
+                # the error is handled under the policy when the line's evaluation ends
+                if self.policy is None or self.is_effectful(c) or c[0] == "when":
+                    raise
+                votes[idx] = False
+                self.line_errors += 1
             self.ran.append(idx)
             if (self.stop_fired or self.skip_fired) and control_idx is None:
                 control_idx = idx
         if control_idx is not None and any(om[:control_idx]):
             self.reached.add("F9")
+            self.reached_at.setdefault("F9", self.lineno)
             if f9:
                 # known defect F9: the look-ahead of an earlier onmatch component has already run every
                 # other component (also those placed after the firing skip/stop); the line then fails
@@ -803,7 +824,7 @@ class Model:
             if self.stopped:
                 break
             res = self.run_line(i, line)
-            res.update({"pln": i, "vars": copy.deepcopy(self.vars), "valid": self.valid, "scan": self.scan_count, "match": self.match_count, "ran": list(getattr(self, "ran", [])), "fired": ("stop" if self.stop_fired else ("skip" if self.skip_fired else None))})
+            res.update({"pln": i, "vars": copy.deepcopy(self.vars), "valid": self.valid, "scan": self.scan_count, "match": self.match_count, "ran": list(getattr(self, "ran", [])), "errs": self.line_errors, "fired": ("stop" if self.stop_fired else ("skip" if self.skip_fired else None))})
             self.ran = []
             trace.append(res)
         return trace
